@@ -116,7 +116,8 @@ fn gen_mode_name(rng: &mut Rng, hostile: bool, used: &[String]) -> String {
             let pieces = ["we \"ird", "back\\slash", "sp ace", "ü", "名", "q\"", "a'b", "new\nline", "tab\t", "{}", "semi;", "=x"];
             format!("{}{}", pieces[rng.below(pieces.len())], rng.below(100))
         } else {
-            let letters = ['A', 'B', 'x', 'y', '_', '0', '7', 'Q'];
+            // identifier-like, now and then with a dot or a dash (file names are derived from it)
+            let letters = ['A', 'B', 'x', 'y', '_', '0', '7', 'Q', '.', '-'];
             let n = rng.range(1, 8);
             let mut s = String::from("M");
             for _ in 0..n {
@@ -158,7 +159,14 @@ pub fn c18_case(rng: &mut Rng, i: u64, st: &mut Stats) -> CaseOutcome {
         m.name = gen_mode_name(rng, hostile_names, &used);
         used.push(m.name.clone());
     }
-    let prefix: String = format!("P{}", rng.below(1000));
+    let prefix: String = match rng.below(4) {
+        0 => format!("lexer-v{}.{}", rng.below(3), rng.below(10)),
+        1 => format!("P.{}", rng.below(1000)),
+        _ => format!("P{}", rng.below(1000)),
+    };
+    if prefix.contains('.') || cfg.modes.iter().any(|m| m.name.contains('.')) {
+        st.count("exports_with_dots_in_prefix_or_mode_name");
+    }
     let case = || json!({"kind": "c18", "cfg": cfg, "patterns": cfg.describe(), "prefix": prefix});
     let scanner = match sut(|| cfg.build_uncached()) {
         Ok(Ok(s)) => s,
@@ -400,6 +408,7 @@ pub fn c18(tier: Tier) -> i32 {
     .floor("scanners_exported", 2_000)
     .floor("files_with_clusters", 500)
     .floor("exports_over_existing_larger_files", 500)
+    .floor("exports_with_dots_in_prefix_or_mode_name", 500)
     .floor("files_with_escaped_labels", 500)
     .floor("scanners_with_names_needing_escapes", 300)
     .floor("fault_missing_folder_error_returned", 20)
